@@ -189,6 +189,32 @@ func (e *Exec) patternIntrinsicHarness(fn *ssa.Function, name string) Intrinsic 
 			}
 			return res
 		}
+	case "vScope":
+		// vScope(f): run f, then forget the assumptions (path-condition conjuncts) added inside it.
+		// Obligations raised inside keep them; later code runs under the weaker condition (sound over-approximation).
+		return func(e *Exec, st *State, fn *ssa.Function, args []Value, depth int) []Outcome {
+			n := len(st.PC)
+			outs := e.callValue(st, args[0], nil, nil, depth+1, nil)
+			var res []Outcome
+			for _, o := range outs {
+				if o.Kind == OutReturn || o.Kind == OutPanic {
+					if len(o.St.PC) >= n {
+						o.St.PC = append([]*Term{}, o.St.PC[:n]...)
+					}
+				}
+				if o.Kind == OutPruned {
+					// an assumption failed inside the scope: only the scope is abandoned
+					o.St.PC = append([]*Term{}, o.St.PC[:min(n, len(o.St.PC))]...)
+					res = append(res, Outcome{Kind: OutReturn, St: o.St})
+					continue
+				}
+				res = append(res, o)
+			}
+			if len(res) > 1 {
+				res = e.mergeOutcomes(n, res)
+			}
+			return res
+		}
 	case "vConfig":
 		return func(e *Exec, st *State, fn *ssa.Function, args []Value, depth int) []Outcome {
 			key := e.nameArg(args[0])
